@@ -72,6 +72,9 @@ def run(ctx) -> None:
     from . import c06 as _c06
 
     ctx.guard("C07.tip-action", _c06.ctor_stores, "C07.tip-action", ("diti_mode",), 1)
+    from . import objmodel
+
+    ctx.guard("C07.tip-action", objmodel.worklist_model, "C07.tip-action")
     for meth in ("aspirate", "dispense"):
         ctx.guard("C07.step-block", step_records_only, meth)
     from . import c04, c18
@@ -317,6 +320,8 @@ def breaks(ctx, dev) -> None:
         if len(ctrl) == 1:
             d, pol = ctrl[0]
             tst = fv.cfg.nodes[d].ast
+            if isinstance(tst, ast.Name):
+                tst = fv.def_expr(tst, d)[0]  # the test held in a single-definition local (`is_split = npartitions > 1`)
             cm = to_cmp(tst, pol)
             np_ = Poly.symbol(nraw)
             ok = cm is not None and (cm == Cmp(np_ - Poly.const(1), ">") or cm == Cmp(np_ - Poly.const(2), ">="))
@@ -347,6 +352,10 @@ def reject(ctx, dev) -> None:
                 if isinstance(tup, (ast.Tuple, ast.List)) and len(tup.elts) == 3 and all(call_fname(e) == "len" and e.args for e in tup.elts):
                     bases = sorted(getattr(strip_norm(e.args[0]), "id", "?") for e in tup.elts)
                     ok_len = bases == ["destination_wells", "source_wells", "volumes"]
+    # the facts are written over sequences that pass through a comprehension the model could not expand: unknown, not missing
+    opaque = any(is_sym(x_, "comp") for r_, _p, _raw in fv.rfacts_at(at) for x_ in ast.walk(r_))
+    if not ok_len and opaque:
+        ok_len = None
     ctx.rep.check(ok_len, rule, cb + "/lengths", "unequal numbers of sources/destinations/volumes are rejected before the first step",
                   "no guard establishes that source_wells, destination_wells and volumes have one common length (after singleton broadcast) before the pipetting loops: surplus entries are silently dropped by zip", where=w)
     # singleton broadcast: the common length is the longest of all three arguments
@@ -396,5 +405,7 @@ def reject(ctx, dev) -> None:
                     ok_neg = True
                 elif fn == "any" and not p and isinstance(inner.ops[0], ast.Lt):
                     weak = "only the NaN-transparent form `not any(volumes < 0)` is checked"
+    if not ok_neg and not weak and opaque:
+        ok_neg = None
     ctx.rep.check(ok_neg, rule, cb + "/negative", "negative (and NaN) volumes are rejected before the first step",
                   (weak or "no guard rejects negative volumes before the pipetting loops") + ": such entries are silently skipped by the `v > 0` filter instead of being rejected", where=w)
